@@ -59,6 +59,10 @@ FitClauses(e) ==
       \cup Chk(CloseIn(e.sfit, e.sref, {Tiny}, 6), "AnchorS")
       \cup Chk(\A i \in Idx(e.hl) : CloseIn(e.hl[i], e.hr[i], {Tiny}, 6), "ContinuousH")
       \cup Chk(\A i \in Idx(e.sl) : CloseIn(e.sl[i], e.sr[i], {Tiny}, 6), "ContinuousS")
+      \* the value the object REPORTS at a break (scalar call, and the middle element of an array bracketing the
+      \* break) is the common value of the two polynomials there
+      \cup Chk(\A i \in Idx(e.hb) : \A k \in 1..2 : CloseIn(e.hb[i][k], e.hl[i], {e.hr[i], Tiny}, 6), "ReportedAtBreakH")
+      \cup Chk(\A i \in Idx(e.sb) : \A k \in 1..2 : CloseIn(e.sb[i][k], e.sl[i], {e.sr[i], Tiny}, 6), "ReportedAtBreakS")
       \cup Chk(e.Tlo = e.dmin /\ e.Thi = e.dmax, "Bounds")
       \cup Chk(\A i \in Idx(e.brk) : Lt(e.Tlo, e.brk[i]) /\ Lt(e.brk[i], e.Thi), "BreakInside")
       \cup Chk(Len(e.hl) = Len(e.brk), "BreakCount")
